@@ -96,6 +96,7 @@ query OnlyTypename { __typename }
 query Two { count me { id } }
 query ViaFrag { ...QF }
 query FragAndField { ...QF count }
+query DupField { ...QF me { id } }
 query WholeFrag { me { ...UF } }
 mutation Rename($id: ID!, $name: String!) { rename(id: $id, name: $name) { id name } }
 subscription Tick($n: Int) { tick(n: $n) }
@@ -140,14 +141,57 @@ subscription Ticks($query: String, $variables: Int) { ticks(query: $query, varia
 """
 
 
+# the package of the Coq Examples (Properties/C15.v `mini`): run first, with explicit expectations (the regression
+# Examples C15_forward_refs_regression_F24, C15_all_plugins_example, C15_order_dependence replayed on the real code)
+CORPUS_SDL = """input Filter { name: String }
+type User { id: ID! }
+type Query { me(f: Filter): User }
+"""
+CORPUS_QUERIES = "query GetMe($f: Filter) { me(f: $f) { id } }\n"
+
+
+def corpus_expectations(case, ev):
+    def client(cfg):
+        f = case.files.get(cfg)
+        return None if f is None else f.get("client.py", "")
+
+    def expect(cfg, what, ok):
+        ev.append(("count", 1))
+        if not ok:
+            ev.append(("violation", f"corpus (Coq example package) with {cfg!r}: {what}",
+                       replay_of(case, cfg, client=(client(cfg) or "")[:1500]), True))
+
+    for cfg in [c for c in case.configs if "F" in c and client(c) is not None]:
+        src = client(cfg)
+        expect(cfg, "deferred import is not `from .get_me import GetMe` (regression of F24)",
+               "        from .get_me import GetMe\n" in src and "from ..get_me" not in src)
+        expect(cfg, "TYPE_CHECKING is not imported from the absolute module typing (regression of F24)",
+               "from .typing" not in src and "TYPE_CHECKING" in src.split("if TYPE_CHECKING")[0])
+        block = src.split("if TYPE_CHECKING:")[1].split("\n\n")[0] if "if TYPE_CHECKING:" in src else ""
+        expect(cfg, "TYPE_CHECKING block does not import Filter from .input_types", "from .input_types import Filter" in block)
+    for cfg in [c for c in case.configs if "S" in c and client(c) is not None]:
+        src = client(cfg)
+        after_f = "F" in cfg and cfg.index("F") < cfg.index("S")
+        expect(cfg, "ShorterResults " + ("must leave the method alone after ClientForwardRefs" if after_f
+                                         else "does not return the single field"),
+               ("model_validate(data).me" in src) != after_f)
+    for cfg in [c for c in case.configs if "E" in c and client(c) is not None]:
+        ops = case.files[cfg].get("operations.py", "")
+        expect(cfg, "operations.py lacks GET_ME_GQL / the client does not pass it",
+               "GET_ME_GQL = " in ops and "query=GET_ME_GQL" in client(cfg))
+
+
 def fixed_scenarios():
     out = _fixed_scenarios()
+    out.insert(0, scenario.Scenario(seed=-100, sdl=CORPUS_SDL, queries=CORPUS_QUERIES,
+                                    config={"convert_to_snake_case": True, "async_client": True,
+                                            "opentelemetry_client": False}, features=("corpus",)))
     for i, snake in enumerate([False, True]):
         cfg = {"convert_to_snake_case": snake, "async_client": True, "opentelemetry_client": False}
         out.append(scenario.Scenario(seed=-11 - i, sdl=CLASH_SDL, queries=CLASH_QUERIES, config=cfg,
                                      features=("fixed", "local_clash")))
     # enable_custom_operations is part of the configuration product (async and sync client)
-    for i, (base, asyn) in enumerate([(out[1], True), (out[2], False)]):
+    for i, (base, asyn) in enumerate([(out[2], True), (out[3], False)]):
         cfg = dict(base.config, enable_custom_operations=True, async_client=asyn)
         queries = base.queries if asyn else "\n".join(
             l for l in base.queries.split("\nsubscription")[0].splitlines())
@@ -284,8 +328,11 @@ def run(ctx):
         "black/isort/autoflake/ast.unparse are meaning-preserving (they sit inside both sides of every comparison)",
         "operation documents are compared after removing the common indentation the client literal carries",
     ]
+    from . import c15_source
+
+    c15_source.run(ctx)
     thorough = ctx.thorough
-    n_seeded = 10 if not thorough else 60
+    n_seeded = 8 if not thorough else 60
     base_seed = ctx.seed * 100000 + 1500
     scenarios = fixed_scenarios()
     for i in range(n_seeded):
@@ -347,11 +394,19 @@ def _run(ctx, scenarios, configs, scratch):
             return {"load": {"ok": False, "modules": {"harness": traceback.format_exc()[-800:]}}, "hints": None,
                     "calls": {}, "consts": None, "harness_error": True}
 
+    regen = regenerate_over_existing(cases[:4], scratch)
     driven = scen.parallel(jobs, drive_job, jobs=14)
     for (case, cfg), res in zip(jobs, driven):
         case.driven = getattr(case, "driven", {})
         case.driven[case.hash[cfg]] = res
     outs = [check_case(c, plans) for c in cases]
+    for kind, *rest in regen:
+        if kind == "violation":
+            run.violation(rest[0], rest[1])
+        elif kind == "dist":
+            run.dist(rest[0], rest[1])
+        else:
+            run.count(rest[0])
     from . import c15_k1
 
     k1_jobs = []
@@ -375,6 +430,47 @@ def _run(ctx, scenarios, configs, scratch):
     c15_k1.run(ctx, k1_jobs)
 
 
+REGEN_PAIRS = [("E", "E"), ("", "E"), ("E", ""), ("SEFN", "SEFN"), ("SEFN", "SF"), ("N", "E"), ("F", "S"), ("S", "F")]
+
+
+def regenerate_over_existing(cases, scratch):
+    """Generate configuration B into a directory that already holds the package of configuration A: every file of a
+    fresh generation of B must be there with the same bytes (in particular ExtractOperations' operations.py, which
+    the generator does not list among its generated files), and nothing of A may leak into a file B writes."""
+    import shutil
+
+    reqs, meta, ev = [], [], []
+    for case in cases:
+        if not case.gen[""].ok:
+            continue
+        for a, b in REGEN_PAIRS:
+            ga, gb = case.gen.get(a), case.gen.get(b)
+            if not (ga and gb and ga.ok and gb.ok):
+                continue
+            d = scratch.new("regen_")
+            shutil.rmtree(d)
+            shutil.copytree(ga.dir, d)
+            req = dict(gb.req, dir=d)
+            reqs.append(req)
+            meta.append((case, a, b, d))
+    results = generate_fresh(reqs)
+    for (case, a, b, d), res in zip(meta, results):
+        ev.append(("count", 1))
+        if not res.get("ok"):
+            ev.append(("violation", f"regenerating {b!r} over an existing {a!r} package fails: {res.get('exc')}",
+                       replay_of(case, b, previous=a, exc=res.get("exc"))))
+            continue
+        files = workers.read_package(res["target"])
+        fresh = case.files[b]
+        bad = sorted(k for k in fresh if files.get(k) != fresh[k])
+        extra = sorted(set(files) - set(fresh))
+        ev.append(("dist", "regeneration", "identical" if not bad and not extra else ("stale-files-left" if not bad else "differs")))
+        if bad:
+            ev.append(("violation", f"regenerating {b!r} over an existing {a!r} package: files {bad} are missing or differ "
+                                    f"from a fresh generation", replay_of(case, b, previous=a, files=bad, extra=extra)))
+    return ev
+
+
 def generate_fresh(reqs, jobs=14):
     """One NEW interpreter per generation request: plugins keep state in module-level objects of the generator
     (see finding C15-shared-import-mutated), so a pooled worker would let one configuration leak into the next."""
@@ -386,6 +482,14 @@ def generate_fresh(reqs, jobs=14):
             w.close()
 
     return scen.parallel(reqs, one, jobs=jobs)
+
+
+def unreserve(param: str, constants) -> str:
+    """ExtractOperations may rename an argument that is named like one of its constants (FIND_GQL -> FIND_GQL_,
+    fixes/C15-extract-constant-shadowed.diff); positional behaviour is unchanged, so signatures and hints are
+    compared modulo that renaming."""
+    base = param.rstrip("_")
+    return base if param != base and base in constants else param
 
 
 def replay_of(case, cfg, **kw):
@@ -412,6 +516,8 @@ def _check_case(case, plans, ev):
     sc = case.sc
     base = case.gen[""]
     feat = "+".join(sc.features) or "main"
+    if "corpus" in sc.features and base.ok:
+        corpus_expectations(case, ev)
     if not base.ok:
         # refusing/crashing without plugins is C04's business; nothing to compare against
         ev.append(("dist", "scenarios", f"unplugged-generation-failed:{(base.res.get('exc') or ['?'])[0]}"))
@@ -510,7 +616,8 @@ def compare(case, cfg, ops, plans, base_run, res, ev, first):
         if got is None:
             ev.append(("violation", f"method {m} missing with {cfg!r}", replay_of(case, cfg, method=m), True))
             continue
-        if [(p[0], p[2], p[3]) for p in got["params"]] != [(p[0], p[2], p[3]) for p in sig["params"]] \
+        gotp = [(unreserve(p[0], consts if "E" in cfg else ()), p[2], p[3]) for p in got["params"]]
+        if gotp != [(p[0], p[2], p[3]) for p in sig["params"]] \
                 or got["async"] != sig["async"] or got["asyncgen"] != sig["asyncgen"]:
             ev.append(("violation", f"signature of {m} differs with {cfg!r}", replay_of(case, cfg, method=m, got=got, want=sig), True))
     # ExtractOperations constants
@@ -609,7 +716,8 @@ def compare(case, cfg, ops, plans, base_run, res, ev, first):
                 ev.append(("violation", f"{name}: annotations of the plugged method ({cfg!r}) do not resolve: {ph['exc']}",
                            replay_of(case, cfg, operation=name, exc=ph["exc"]), True))
             elif "exc" not in bh:
-                if ph["params"] != bh["params"]:
+                php = {unreserve(k, consts if "E" in cfg else ()): v for k, v in ph["params"].items()}
+                if php != bh["params"]:
                     ev.append(("violation", f"{name}: parameter annotations change meaning with {cfg!r}",
                                replay_of(case, cfg, operation=name, unplugged=bh["params"], plugged=ph["params"]), True))
                 want = bh["return"]
